@@ -109,6 +109,21 @@ fn query_times(s: &Scenario, t1: i64, t2: i64, t3: i64) -> Vec<i64> {
 // ------------------------------------------------------------------------------------------------
 pub fn check06(s: &Scenario) -> CheckResult {
     let p = &s.prof;
+    // a state with a NaN position or velocity is a state like any other: the constructor panics or returns ordered boundaries
+    {
+        let mut q = p.clone();
+        match (s.fracs[0].to_bits() >> 3) % 4 {
+            0 => q.start[0] = f32::NAN,
+            1 => q.start[1] = f32::NAN,
+            2 => q.end[0] = f32::NAN,
+            _ => q.end[1] = f32::NAN,
+        }
+        if let Ok(accepted) = build(&q) {
+            if let Some((d1, d2, d3)) = debug_boundaries(&accepted) {
+                ensure!(0 <= d1 && d1 <= d2 && d2 <= d3, "C06/boundaries-order", "the constructor accepted a profile with a NaN component and returned boundaries (as printed by its Debug impl) t1={} t2={} t3={}: not 0 <= t1 <= t2 <= t3; profile {:?}", d1, d2, d3, q);
+            }
+        }
+    }
     let mp = match build(p) {
         Ok(mp) => mp,
         Err(_) => return Ok(CaseInfo::new(false, 0).class("constructor panicked (legal)")),
